@@ -10,6 +10,7 @@ from . import mir
 from .types import TypeEnv
 from .engine import Engine
 from . import stdmodels
+from . import stdmodels2          # noqa: F401  (registers the second tier of models)
 
 VERIF = os.path.dirname(os.path.dirname(os.path.abspath(__file__)))
 REPO = os.environ.get('VERIF_REPO', '/repo')
